@@ -82,6 +82,23 @@ def scenarios(tier, rng):
                 invmod(bits, a, m)
             if m > 2 and m % 2 == 0:
                 invmod(bits, rng.randrange(0, mx) & ~1 & mx, m)
+        # moduli that are an exact power of two (and its two neighbours) at EVERY limb boundary +- 1 (thorough: every exponent): a
+        # masking fast path for such moduli is selected by the size of the exponent and is wrong for one exponent only (seed T7-A:
+        # 2^64 in types wider than a limb)
+        ks = {1, 2, bits - 1, bits - 2}
+        for lb in range(64, bits + 1, 64):
+            ks |= {lb - 1, lb, lb + 1}
+        if not quick:
+            ks |= set(range(1, bits))
+        for k in sorted(k for k in ks if 0 < k < bits):
+            p2 = 1 << k
+            hi = (mx >> k) << k
+            for a, b in ((mx, mx), ((p2 + 1) & mx, (p2 - 1)), (rand_value(rng, bits) | hi, rand_value(rng, bits) | 1), (p2 - 1, p2 - 1)):
+                modular(bits, a, b, p2)
+            modular(bits, mx, mx - 1, p2 - 1)
+            modular(bits, mx - 2, mx, (p2 + 1) & mx)
+            if bits <= 256 or k % 64 == 0:
+                powmod(bits, rng.choice([3, mx, rand_value(rng, bits) | 1]), rng.choice([2, 3, 5, 65537 & mx]), p2)
         # value and modulus sharing a LARGE factor whose low limb is 1 (2^64 + 1, 2^128 + 1, k 2^64 + 1): the gcd the loop ends with
         # is then a multi-limb number that looks like 1 in its lowest limb; and coprime pairs built the same way
         if bits >= 129:
